@@ -21,8 +21,9 @@ def main():
     props = [json.loads(l)["id"] for l in open(os.path.join(VERIF, "properties.jsonl"))]
     checks = []
     claimed = set()
+    READY = set(open(os.path.join(VERIF, "props", "READY")).read().split())
     for pid in props:
-        if not os.path.exists(os.path.join(VERIF, "props", f"{pid}.py")):
+        if not os.path.exists(os.path.join(VERIF, "props", f"{pid}.py")) or pid not in READY:
             continue
         m = importlib.import_module(f"props.{pid}")
         if getattr(m, "DISABLED", False):
